@@ -574,6 +574,25 @@ except ImportError:  # pragma: no cover
 ''')]
 
 
+@mutant('c16_stdout_encoding_at_import', 'C16',
+        'pretty.py looks at sys.stdout.encoding at import to choose its indentation glyphs: AttributeError at import when '
+        'the process has no standard streams (sys.stdout is None: pythonw, GUI, daemon)')
+def _():
+    return [('soupsieve/pretty.py',
+             '''from __future__ import annotations
+import re
+from typing import Any
+''',
+             '''from __future__ import annotations
+import re
+import sys
+from typing import Any
+
+# Use plain ASCII indentation guides unless the terminal can show something nicer
+UNICODE_OUTPUT = sys.stdout.encoding.lower().startswith('utf')
+''')]
+
+
 @mutant('c16_assert_docstring_under_OO', 'C16',
         'css_types builds a lookup table from class docstrings at import: under -OO docstrings are None and the import '
         'dies')
